@@ -1,7 +1,407 @@
-//! wire interfaces of the "str" area (see docs/AGENT_GUIDE.md for the id range)
+//! wire interfaces of the "str" area (ids 30-39), property C15.
+//!
+//! 30  operation sequence over a pool of strings (see Model/WireStr.v for the grammar)
+//! 31  lo n: every string/char builtin that consults a Unicode table, on each scalar in lo..lo+n
+//! 39  dump of the Unicode tables of the std this harness is built with (oracle data for
+//!     coq/Gen/CaseTables.v; never compared with the model)
 #![allow(unused_imports, dead_code)]
 use crate::text::*;
+use marwood::cell::Cell;
+use marwood::number::Number;
+use marwood::vm::Vm;
+use num::bigint::BigInt;
+use num::rational::Ratio;
+use std::panic::{catch_unwind, AssertUnwindSafe};
 
-pub fn run(_c: &[String]) -> String {
-    "BADCASE".into()
+pub const OPS: [&str; 48] = [
+    "%alias",
+    "string-length",
+    "string-ref",
+    "string-set!",
+    "string-copy",
+    "substring",
+    "string-fill!",
+    "string->list",
+    "string->vector",
+    "vector->string",
+    "list->string",
+    "string",
+    "make-string",
+    "string-append",
+    "string=?",
+    "string<?",
+    "string>?",
+    "string<=?",
+    "string>=?",
+    "string-ci=?",
+    "string-ci<?",
+    "string-ci>?",
+    "string-ci<=?",
+    "string-ci>=?",
+    "string-upcase",
+    "string-downcase",
+    "string-foldcase",
+    "char->integer",
+    "integer->char",
+    "char-alphabetic?",
+    "char-numeric?",
+    "char-whitespace?",
+    "char-upper-case?",
+    "char-lower-case?",
+    "char-upcase",
+    "char-downcase",
+    "char-foldcase",
+    "digit-value",
+    "char=?",
+    "char<?",
+    "char>?",
+    "char<=?",
+    "char>=?",
+    "char-ci=?",
+    "char-ci<?",
+    "char-ci>?",
+    "char-ci<=?",
+    "char-ci>=?",
+];
+
+/// `esc` of text.rs, additionally escaping the field separators `|` and `;`
+fn esc2(s: &str) -> String {
+    esc(s).replace('|', "\\u{7c}").replace(';', "\\u{3b}")
+}
+
+struct Rd<'a> {
+    c: &'a [String],
+    i: usize,
+}
+
+impl<'a> Rd<'a> {
+    fn more(&self) -> bool {
+        self.i < self.c.len()
+    }
+    fn tok(&mut self) -> Option<&'a str> {
+        let t = self.c.get(self.i)?;
+        self.i += 1;
+        Some(t.as_str())
+    }
+    fn n(&mut self) -> Option<u64> {
+        self.tok()?.parse::<u64>().ok()
+    }
+}
+
+fn sym(s: &str) -> Cell {
+    Cell::new_symbol(s)
+}
+
+fn call(name: &str, args: Vec<Cell>) -> Cell {
+    let mut v = vec![sym(name)];
+    v.extend(args);
+    Cell::new_list(v)
+}
+
+fn signed_big(sign: u64, mag: &str) -> Option<BigInt> {
+    let m = mag.parse::<BigInt>().ok()?;
+    Some(if sign == 1 { -m } else { m })
+}
+
+/// one argument; `depth` bounds the nesting exactly as the model's fuel does not need to
+fn arg(r: &mut Rd, npool: u64, top: bool) -> Option<Cell> {
+    let kind = r.n()?;
+    match kind {
+        0 => {
+            let k = r.n()?;
+            if k >= npool || !top {
+                return None;
+            }
+            Some(sym(&format!("s{}", k)))
+        }
+        1 => {
+            let sign = r.n()?;
+            let mag = r.tok()?.parse::<u128>().ok()?;
+            let v: i128 = if sign == 1 { -(mag as i128) } else { mag as i128 };
+            if v < i64::MIN as i128 || v > i64::MAX as i128 {
+                return None;
+            }
+            Some(Cell::Number(Number::Fixnum(v as i64)))
+        }
+        2 => {
+            let c = r.n()?;
+            Some(Cell::Char(char::from_u32(u32::try_from(c).ok()?)?))
+        }
+        3 | 4 | 5 => {
+            let n = r.n()?;
+            if n > 64 {
+                return None;
+            }
+            let mut items = vec![];
+            for _ in 0..n {
+                items.push(arg(r, npool, false)?);
+            }
+            match kind {
+                3 => Some(call("list", items)),
+                4 => Some(call("vector", items)),
+                _ => {
+                    let mut tail = arg(r, npool, false)?;
+                    for it in items.into_iter().rev() {
+                        tail = call("cons", vec![it, tail]);
+                    }
+                    Some(tail)
+                }
+            }
+        }
+        6 => {
+            let sign = r.n()?;
+            let b = signed_big(sign, r.tok()?)?;
+            Some(Cell::Number(Number::new_bigint(b)))
+        }
+        7 => {
+            let bits = r.n()?;
+            Some(Cell::Number(Number::Float(f64::from_bits(bits))))
+        }
+        8 => {
+            let sign = r.n()?;
+            let n = r.n()?;
+            let d = r.n()?;
+            if n > i32::MAX as u64 || d == 0 || d > i32::MAX as u64 {
+                return None;
+            }
+            let n = if sign == 1 { -(n as i32) } else { n as i32 };
+            Some(Cell::Number(Number::Rational(Ratio::new_raw(n, d as i32))))
+        }
+        9 => {
+            let b = r.n()?;
+            Some(Cell::Bool(b != 0))
+        }
+        10 => {
+            let n = r.n()?;
+            if n > 64 {
+                return None;
+            }
+            let mut s = String::new();
+            for _ in 0..n {
+                s.push(char::from_u32(u32::try_from(r.n()?).ok()?)?);
+            }
+            Some(Cell::String(s))
+        }
+        _ => None,
+    }
+}
+
+fn show(cell: &Cell) -> String {
+    esc2(&format!("{:#}", cell))
+}
+
+fn eval(vm: &mut Vm, cell: &Cell) -> Result<Result<Cell, ()>, ()> {
+    match catch_unwind(AssertUnwindSafe(|| vm.eval(cell))) {
+        Ok(Ok(c)) => Ok(Ok(c)),
+        Ok(Err(_)) => Ok(Err(())),
+        Err(_) => Err(()),
+    }
+}
+
+fn ops_case(c: &[String]) -> Option<String> {
+    let mut r = Rd { c, i: 1 };
+    let npool = r.n()?;
+    if npool > 16 {
+        return None;
+    }
+    let mut vm = Vm::new();
+    for k in 0..npool {
+        let len = r.n()?;
+        if len > 4096 {
+            return None;
+        }
+        let mut s = String::new();
+        for _ in 0..len {
+            s.push(char::from_u32(u32::try_from(r.n()?).ok()?)?);
+        }
+        let def = call(
+            "define",
+            vec![sym(&format!("s{}", k)), call("string-copy", vec![Cell::String(s)])],
+        );
+        vm.eval(&def).ok()?;
+    }
+    let mut out: Vec<String> = vec![];
+    while r.more() {
+        let op = r.n()? as usize;
+        let dest = r.n()?;
+        let nargs = r.n()?;
+        if op >= OPS.len() || dest > npool || nargs > 64 {
+            return None;
+        }
+        let mut args = vec![];
+        for _ in 0..nargs {
+            args.push(arg(&mut r, npool, true)?);
+        }
+        let expr = if op == 0 {
+            if args.len() != 1 || dest == 0 {
+                return None;
+            }
+            args.pop().unwrap()
+        } else {
+            call(OPS[op], args)
+        };
+        let res = if dest == 0 {
+            eval(&mut vm, &expr)
+        } else {
+            let name = format!("s{}", dest - 1);
+            match eval(&mut vm, &call("define", vec![sym(&name), expr])) {
+                Ok(Ok(_)) => eval(&mut vm, &sym(&name)),
+                other => other,
+            }
+        };
+        let mut rec = match res {
+            Err(()) => {
+                out.push("PANIC".into());
+                break;
+            }
+            Ok(Err(())) => String::from("ERR"),
+            Ok(Ok(cell)) => format!("OK {}", show(&cell)),
+        };
+        for k in 0..npool {
+            match eval(&mut vm, &sym(&format!("s{}", k))) {
+                Ok(Ok(cell)) => rec.push_str(&format!(" ; {}", show(&cell))),
+                _ => rec.push_str(" ; ?"),
+            }
+        }
+        out.push(rec);
+    }
+    Some(format!("SEQ {}", out.join(" | ")))
+}
+
+fn chr(c: char) -> Cell {
+    Cell::Char(c)
+}
+
+fn chars_case(c: &[String]) -> Option<String> {
+    let lo: u32 = c.get(1)?.parse().ok()?;
+    let n: u32 = c.get(2)?.parse().ok()?;
+    if c.len() != 3 || lo > 0x110000 || n > 4096 {
+        return None;
+    }
+    let mut vm = Vm::new();
+    let mut out = String::from("CH");
+    for u in lo..lo.checked_add(n)? {
+        let ch = match char::from_u32(u) {
+            Some(ch) => ch,
+            None => {
+                // not a scalar value: integer->char must refuse it
+                let e = call("integer->char", vec![Cell::Number(Number::Fixnum(u as i64))]);
+                match eval(&mut vm, &e) {
+                    Err(()) => out.push_str(" PANIC"),
+                    Ok(Err(())) => out.push_str(" ERR"),
+                    Ok(Ok(cell)) => out.push_str(&format!(" {}", show(&cell))),
+                }
+                continue;
+            }
+        };
+        let one = |name: &str| call(name, vec![chr(ch)]);
+        let s1 = |cs: Vec<char>| call("string", cs.into_iter().map(chr).collect());
+        let e = call(
+            "list",
+            vec![
+                call("integer->char", vec![Cell::Number(Number::Fixnum(u as i64))]),
+                one("char->integer"),
+                one("char-alphabetic?"),
+                one("char-numeric?"),
+                one("char-whitespace?"),
+                one("char-upper-case?"),
+                one("char-lower-case?"),
+                one("char-upcase"),
+                one("char-downcase"),
+                one("char-foldcase"),
+                one("digit-value"),
+                call("string-upcase", vec![s1(vec![ch])]),
+                call("string-downcase", vec![s1(vec![ch])]),
+                call("string-foldcase", vec![s1(vec!['A', '\u{3a3}', ch])]),
+                call("string-downcase", vec![s1(vec!['A', '\u{3a3}', ch, 'A'])]),
+                call("string-downcase", vec![s1(vec![ch, '\u{3a3}'])]),
+            ],
+        );
+        match eval(&mut vm, &e) {
+            Err(()) => out.push_str(" PANIC"),
+            Ok(Err(())) => out.push_str(" ERR"),
+            Ok(Ok(cell)) => out.push_str(&format!(" {}", show(&cell))),
+        }
+    }
+    Some(out)
+}
+
+/// The Unicode tables of std, observed through its public API only.  The Final_Sigma
+/// classes (Case_Ignorable / Cased are private to core) are recovered from
+/// str::to_lowercase itself: with T1 = lower("AΣc")[1] and T2 = lower("AΣcA")[1],
+///   T1 = σ            <=> c is not case-ignorable and is cased        (class 2)
+///   T1 = ς and T2 = σ <=> c is case-ignorable                         (class 1)
+///   T2 = ς            <=> c is neither                                (class 0)
+/// (Cased is only ever consulted on a character that is not Case_Ignorable.)
+fn dump_tables() -> String {
+    let mut o = String::from("TABLES");
+    let preds: [(&str, fn(char) -> bool); 5] = [
+        ("alphabetic", |c| c.is_alphabetic()),
+        ("numeric", |c| c.is_numeric()),
+        ("whitespace", |c| c.is_whitespace()),
+        ("uppercase", |c| c.is_uppercase()),
+        ("lowercase", |c| c.is_lowercase()),
+    ];
+    let scalars = || (0u32..0x110000).filter_map(char::from_u32);
+    let ranges = |f: &dyn Fn(char) -> bool| -> String {
+        let mut rs: Vec<(u32, u32)> = vec![];
+        for c in scalars() {
+            if f(c) {
+                let u = c as u32;
+                match rs.last_mut() {
+                    Some(l) if l.1 + 1 == u => l.1 = u,
+                    _ => rs.push((u, u)),
+                }
+            }
+        }
+        rs.iter().map(|(a, b)| format!("{:x}-{:x}", a, b)).collect::<Vec<_>>().join(",")
+    };
+    for (name, f) in preds.iter() {
+        o.push_str(&format!(" {}={}", name, ranges(&|c| f(c))));
+    }
+    let sigma_class = |c: char| -> u32 {
+        let t1: String = ['A', '\u{3a3}', c].iter().collect();
+        let t2: String = ['A', '\u{3a3}', c, 'A'].iter().collect();
+        let l1 = t1.to_lowercase().chars().nth(1).unwrap();
+        let l2 = t2.to_lowercase().chars().nth(1).unwrap();
+        if l1 == '\u{3c3}' {
+            2
+        } else if l2 == '\u{3c3}' {
+            1
+        } else {
+            0
+        }
+    };
+    o.push_str(&format!(" ignorable={}", ranges(&|c| sigma_class(c) == 1)));
+    o.push_str(&format!(" cased={}", ranges(&|c| sigma_class(c) == 2)));
+    let maps: [(&str, fn(char) -> Vec<char>); 2] = [
+        ("lower", |c| c.to_lowercase().collect()),
+        ("upper", |c| c.to_uppercase().collect()),
+    ];
+    for (name, f) in maps.iter() {
+        let mut items = vec![];
+        for c in scalars() {
+            let m = f(c);
+            if m != vec![c] {
+                items.push(format!(
+                    "{:x}:{}",
+                    c as u32,
+                    m.iter().map(|x| format!("{:x}", *x as u32)).collect::<Vec<_>>().join(".")
+                ));
+            }
+        }
+        o.push_str(&format!(" {}={}", name, items.join(",")));
+    }
+    o
+}
+
+pub fn run(c: &[String]) -> String {
+    let id: u64 = c[0].parse().unwrap_or(0);
+    let r = match id {
+        30 => ops_case(c),
+        31 => chars_case(c),
+        39 => Some(dump_tables()),
+        _ => None,
+    };
+    r.unwrap_or_else(|| "BADCASE".into())
 }
